@@ -39,6 +39,102 @@ package tun
 //@ func CustomHostnameKey(hostname string) (r string)
 //@   pure
 
+// ---- the key builders are fmt.Sprintf of one fixed format over the identifying field and nothing else (the `pure`
+// declarations above are what callers see; these variants pin the bodies). Trusted: fmt renders %s of a string or
+// byte slice verbatim, so distinct identifiers give distinct keys; a builder that cleans, joins or re-encodes the
+// identifier (path.Join collapses `//` and `/../`) can map two clients onto one key.
+//@ func DestinationByChordKey@fmt(chord *protocol.Node) (r string)
+//@   safety off
+//@   opt frame=off
+//@   ghost ident string
+//@   ghost made string = ""
+//@   ghost calls int = 0
+//@   at call GetAddress#1: assert the-identifier-is-read-from-the-argument: callarg0 == chord
+//@   at after call GetAddress#1: ghost ident := callresult
+//@   at call Sprintf#1: assert the-key-is-the-fixed-prefix-followed-by-the-identifier-verbatim: callarg0 == "/destination/chord/%s" && len(callarg1) == 1 && cast(callarg1[0], "string") == ident && dyntype(callarg1[0], "string")
+//@   at after call Sprintf#1: ghost made := callresult
+//@   at after call Sprintf#1: ghost calls := calls + 1
+//@   at call Sprintf#?: assert formatted-once: calls == 0
+//@   ensures local-the-formatted-string-is-returned-unchanged: calls == 1 && r == made
+
+//@ func DestinationByTunnelKey@fmt(tunnel *protocol.Node) (r string)
+//@   safety off
+//@   opt frame=off
+//@   ghost ident string
+//@   ghost made string = ""
+//@   ghost calls int = 0
+//@   at call GetAddress#1: assert the-identifier-is-read-from-the-argument: callarg0 == tunnel
+//@   at after call GetAddress#1: ghost ident := callresult
+//@   at call Sprintf#1: assert the-key-is-the-fixed-prefix-followed-by-the-identifier-verbatim: callarg0 == "/destination/tunnel/%s" && len(callarg1) == 1 && cast(callarg1[0], "string") == ident && dyntype(callarg1[0], "string")
+//@   at after call Sprintf#1: ghost made := callresult
+//@   at after call Sprintf#1: ghost calls := calls + 1
+//@   at call Sprintf#?: assert formatted-once: calls == 0
+//@   ensures local-the-formatted-string-is-returned-unchanged: calls == 1 && r == made
+
+//@ func ClientTokenKey@fmt(token *protocol.ClientToken) (r string)
+//@   safety off
+//@   opt frame=off
+//@   ghost ident []byte
+//@   ghost made string = ""
+//@   ghost calls int = 0
+//@   at call GetToken#1: assert the-identifier-is-read-from-the-argument: callarg0 == token
+//@   at after call GetToken#1: ghost ident := callresult
+//@   at call Sprintf#1: assert the-key-is-the-fixed-prefix-followed-by-the-identifier-verbatim: callarg0 == "/tunnel/client/token/%s" && len(callarg1) == 1 && cast(callarg1[0], "[]byte") == ident
+//@   at after call Sprintf#1: ghost made := callresult
+//@   at after call Sprintf#1: ghost calls := calls + 1
+//@   at call Sprintf#?: assert formatted-once: calls == 0
+//@   ensures local-the-formatted-string-is-returned-unchanged: calls == 1 && r == made
+
+//@ func ClientHostnamesPrefix@fmt(token *protocol.ClientToken) (r string)
+//@   safety off
+//@   opt frame=off
+//@   ghost ident []byte
+//@   ghost made string = ""
+//@   ghost calls int = 0
+//@   at call GetToken#1: assert the-identifier-is-read-from-the-argument: callarg0 == token
+//@   at after call GetToken#1: ghost ident := callresult
+//@   at call Sprintf#1: assert the-key-is-the-fixed-prefix-followed-by-the-identifier-verbatim: callarg0 == "/tunnel/client/hostnames/%s" && len(callarg1) == 1 && cast(callarg1[0], "[]byte") == ident
+//@   at after call Sprintf#1: ghost made := callresult
+//@   at after call Sprintf#1: ghost calls := calls + 1
+//@   at call Sprintf#?: assert formatted-once: calls == 0
+//@   ensures local-the-formatted-string-is-returned-unchanged: calls == 1 && r == made
+
+//@ func ClientLeaseKey@fmt(token *protocol.ClientToken) (r string)
+//@   safety off
+//@   opt frame=off
+//@   ghost ident []byte
+//@   ghost made string = ""
+//@   ghost calls int = 0
+//@   at call GetToken#1: assert the-identifier-is-read-from-the-argument: callarg0 == token
+//@   at after call GetToken#1: ghost ident := callresult
+//@   at call Sprintf#1: assert the-key-is-the-fixed-prefix-followed-by-the-identifier-verbatim: callarg0 == "/tunnel/client/lease/%s" && len(callarg1) == 1 && cast(callarg1[0], "[]byte") == ident
+//@   at after call Sprintf#1: ghost made := callresult
+//@   at after call Sprintf#1: ghost calls := calls + 1
+//@   at call Sprintf#?: assert formatted-once: calls == 0
+//@   ensures local-the-formatted-string-is-returned-unchanged: calls == 1 && r == made
+
+//@ func RoutingKey@fmt(hostname string, num int) (r string)
+//@   safety off
+//@   opt frame=off
+//@   ghost made string = ""
+//@   ghost calls int = 0
+//@   at call Sprintf#1: assert the-key-is-the-fixed-prefix-the-hostname-and-the-slot-number: callarg0 == "/tunnel/bundle/%s/%d" && len(callarg1) == 2 && dyntype(callarg1[0], "string") && cast(callarg1[0], "string") == hostname && dyntype(callarg1[1], "int") && cast(callarg1[1], "int") == num
+//@   at after call Sprintf#1: ghost made := callresult
+//@   at after call Sprintf#1: ghost calls := calls + 1
+//@   at call Sprintf#?: assert formatted-once: calls == 0
+//@   ensures local-the-formatted-string-is-returned-unchanged: calls == 1 && r == made
+
+//@ func CustomHostnameKey@fmt(hostname string) (r string)
+//@   safety off
+//@   opt frame=off
+//@   ghost made string = ""
+//@   ghost calls int = 0
+//@   at call Sprintf#1: assert the-key-is-the-fixed-prefix-followed-by-the-hostname-verbatim: callarg0 == "/tunnel/client/custom/%s" && len(callarg1) == 1 && dyntype(callarg1[0], "string") && cast(callarg1[0], "string") == hostname
+//@   at after call Sprintf#1: ghost made := callresult
+//@   at after call Sprintf#1: ghost calls := calls + 1
+//@   at call Sprintf#?: assert formatted-once: calls == 0
+//@   ensures local-the-formatted-string-is-returned-unchanged: calls == 1 && r == made
+
 // ---- C29: custom hostname bindings in the KV store
 //@ func FindCustomHostname(ctx context.Context, kv chord.KV, hostname string) (r *protocol.CustomHostname, err error)
 //@   safety off
